@@ -22,7 +22,7 @@ REPO = os.environ.get("BAIZE_REPO", "/repo")
 COQ = os.path.join(VERIF, "coq")
 MODEL = os.path.join(VERIF, "bin", "model")
 WORK = os.path.join(VERIF, ".work")
-NCPU = min(16, os.cpu_count() or 4)
+NCPU = max(1, min(16, int(os.environ.get("VERIF_NCPU", "0")) or os.cpu_count() or 4))
 
 if REPO not in sys.path:
     sys.path.insert(0, REPO)
@@ -151,6 +151,28 @@ def check_proofs(pid, tier):
     if not okb:
         res["error"] = "build failed: " + log[-1500:]
         return res
+    # VERIF_PROOFS_CACHED=1 (tools that run one check against many scratch copies of baize, e.g. tools/mutate.py): the
+    # proofs do not depend on baize, so the result of the last re-check for the same build stamp is reused.  The
+    # registered checks never set it.
+    cache = os.path.join(WORK, "proofs-%s-%s.json" % (pid, tier))
+    try:
+        stamp = open(os.path.join(WORK, "build.stamp")).read().strip()
+    except OSError:
+        stamp = None
+    if os.environ.get("VERIF_PROOFS_CACHED") == "1" and stamp and os.path.exists(cache):
+        try:
+            c = json.load(open(cache))
+            if c.get("stamp") == stamp and c["res"].get("ok"):
+                return c["res"]
+        except Exception:
+            pass
+    res = _check_proofs(pid, tier, res, t0)
+    if res.get("ok") and stamp:
+        write_json(cache, {"stamp": stamp, "res": res})
+    return res
+
+
+def _check_proofs(pid, tier, res, t0):
     bad = scan_forbidden()
     if bad:
         res["error"] = "forbidden tokens: " + "; ".join(bad[:5])
